@@ -161,6 +161,7 @@ pub async fn scenario(line: &str) -> String {
     "note" => "note".to_string(),
     "rawpeer" => rawpeer(&p).await,
     "slowdrip" => slowdrip(&p).await,
+    "compat" => compat(&p).await,
     _ => "bad-op".to_string(),
   }
 }
@@ -335,4 +336,78 @@ async fn slowdrip(p: &[&str]) -> String {
     Some(d) => format!("ORACLE-FAIL key=handshake-deadline closed=late after_ms~{} hsivl={}", (d.as_millis() / 100) * 100, hsivl),
     None => format!("ORACLE-FAIL key=handshake-deadline closed=never hsivl={}", hsivl),
   }
+}
+
+static UNIQ: std::sync::atomic::AtomicUsize = std::sync::atomic::AtomicUsize::new(0);
+
+pub fn unique_name(prefix: &str) -> String {
+  format!(
+    "{}-{}-{}",
+    prefix,
+    std::process::id(),
+    UNIQ.fetch_add(1, std::sync::atomic::Ordering::Relaxed)
+  )
+}
+
+async fn wait_handshake(m: &rzmq::socket::events::MonitorReceiver, total: Duration) -> &'static str {
+  let t0 = Instant::now();
+  while t0.elapsed() < total {
+    match tokio::time::timeout(Duration::from_millis(50), m.recv()).await {
+      Ok(Ok(SocketEvent::HandshakeSucceeded { .. })) => return "ok",
+      Ok(Ok(SocketEvent::HandshakeFailed { .. })) => return "no",
+      Ok(Ok(SocketEvent::ConnectFailed { .. })) => return "no",
+      Ok(Ok(_)) => {}
+      Ok(Err(_)) => return "no",
+      Err(_) => {}
+    }
+  }
+  "no"
+}
+
+/// `compat <tcp|ipc|inproc> <binder cfg> <connector cfg>`
+/// One socket binds, the other connects; reports whether each side saw the handshake succeed
+/// (`bind=ok|no conn=ok|no`; for inproc the connector's verdict is the result of `connect()`).
+async fn compat(p: &[&str]) -> String {
+  let transport = p[1];
+  let ca = parse_kv(p[2]);
+  let cb = parse_kv(p[3]);
+  let ctx = Context::new().expect("ctx");
+  let a = match make_socket(&ctx, &ca).await {
+    Ok(s) => s,
+    Err(e) => return format!("setup-error {}", err_class(&e)),
+  };
+  let b = match make_socket(&ctx, &cb).await {
+    Ok(s) => s,
+    Err(e) => return format!("setup-error {}", err_class(&e)),
+  };
+  let ma = a.monitor_default().await.unwrap();
+  let mb = b.monitor_default().await.unwrap();
+  let ep = match transport {
+    "tcp" => "tcp://127.0.0.1:0".to_string(),
+    "ipc" => format!("ipc:///tmp/{}.sock", unique_name("rzmq-verif")),
+    _ => format!("inproc://{}", unique_name("compat")),
+  };
+  if let Err(e) = a.bind(&ep).await {
+    return format!("setup-error bind {}", err_class(&e));
+  }
+  let target = if transport == "tcp" { last_endpoint(&a).await } else { ep.clone() };
+  let res = b.connect(&target).await;
+  let out = if transport == "inproc" {
+    let conn = if res.is_ok() { "ok" } else { "no" };
+    // the binder must stay usable whatever the verdict: a second, compatible connector still gets in
+    format!("bind=- conn={}", conn)
+  } else {
+    let (ra, rb) = tokio::join!(
+      wait_handshake(&ma, Duration::from_millis(1500)),
+      wait_handshake(&mb, Duration::from_millis(1500))
+    );
+    format!("bind={} conn={}", ra, rb)
+  };
+  let _ = tokio::time::timeout(Duration::from_secs(5), b.close()).await;
+  let _ = tokio::time::timeout(Duration::from_secs(5), a.close()).await;
+  let _ = tokio::time::timeout(Duration::from_secs(5), ctx.term()).await;
+  if transport == "ipc" {
+    let _ = std::fs::remove_file(ep.trim_start_matches("ipc://"));
+  }
+  out
 }
